@@ -150,10 +150,12 @@ class WindowMonitor:
                 if G_[t].shape[0] != n_expected:
                     self.viol.append(viol("window-sample-count", f"{nm} block {t}: {G_[t].shape[0]} samples, the statement gives {n_expected}; {cfg}", **cfg))
                     return
-                if G_[t].shape != E_[t].shape or err_exact(G_[t], E_[t]) > 1e-5:
+                # without pooling the operation only moves data: unique ids are compared exactly (a relative tolerance would
+                # hide a constant 900000.25 that came back as 900000); pooled frames are averages and get a rounding tolerance
+                if G_[t].shape != E_[t].shape or (not np.array_equal(G_[t], E_[t]) if ds == 0 else err_exact(G_[t], E_[t]) > 1e-5):
                     where = ""
                     if G_[t].shape == E_[t].shape:
-                        bad = np.argwhere(np.abs(G_[t] - E_[t]) > 1e-5 * max(1.0, np.max(np.abs(E_[t]))))
+                        bad = np.argwhere(np.abs(G_[t] - E_[t]) > (0 if ds == 0 else 1e-5 * max(1.0, np.max(np.abs(E_[t])))))
                         w, ch = int(bad[0][0]), int(bad[0][1])
                         where = f" first wrong frame: sample {w}, channel slot {ch}: got {small(G_[t][w, ch], 3)}, expected {small(E_[t][w, ch], 3)}"
                     self.viol.append(viol("window-frame-misplaced", f"{nm} block {t} differs from the window table (shape {G_[t].shape} vs {E_[t].shape}).{where}; {cfg}", **cfg))
@@ -192,6 +194,7 @@ def frames(D, sp, sig, T, tag):
 
 
 def run(case, ctx):
+    import jax
     import jax.numpy as jnp
     import ginjax.data as data
     import ginjax.geometric as geom
@@ -224,20 +227,35 @@ def run(case, ctx):
             dynb = frames(D, sp, dyn_sig, T, b)
             constb = {t: (900000 + b * 1000 + TCODE[t] * 100 + np.arange(c * int(np.prod(sp)) * D ** t[0])).reshape((c,) + sp + (D,) * t[0]).astype(np.float32) for t, c in const_sig}
             trajs.append((dynb, constb))
-        dyn0 = geom.MultiImage({t: jnp.asarray(v) for t, v in trajs[0][0].items()}, D, torus)
-        const0 = geom.MultiImage({t: jnp.asarray(v) for t, v in trajs[0][1].items()}, D, torus)
-        x1, y1 = data.times_series_to_multi_images(dyn0, const0, T, p, f, s, dt, ds)
+        # operand representation / call form variety: NumPy-backed fields (as read from disk), keyword arguments, defaults
+        # left out when they equal the default
+        # dtype variety: raw integer dynamic fields (int32) next to non-integer float32 constants - the constants must come
+        # through unchanged (no pooling in this variant: integer pooling is outside the statement)
+        if case["i"] % 5 == 3 and ds == 0:
+            trajs = [({t: v.astype(np.int32) for t, v in d_.items()}, {t: (v + 0.25).astype(np.float32) for t, v in c_.items()}) for d_, c_ in trajs]
+            key["dtypes"] = "int32 dynamic / float32 non-integer constants"
+        conv = (lambda v: v) if case["i"] % 5 == 1 else jnp.asarray
+        dyn0 = geom.MultiImage({t: conv(v) for t, v in trajs[0][0].items()}, D, torus)
+        const0 = geom.MultiImage({t: conv(v) for t, v in trajs[0][1].items()}, D, torus)
+        form = case["i"] % 3
+        if form == 1:
+            x1, y1 = data.times_series_to_multi_images(dyn0, const0, T, p, f, skip_initial=s, delta_t=dt, downsample=ds)
+        elif form == 2:
+            kw = {k_: v_ for k_, v_, d_ in (("skip_initial", s, 0), ("delta_t", dt, 1), ("downsample", ds, 0)) if v_ != d_}
+            x1, y1 = data.times_series_to_multi_images(dyn0, const0, T, p, f, **kw)
+        else:
+            x1, y1 = data.times_series_to_multi_images(dyn0, const0, T, p, f, s, dt, ds)
         evals += 1
         # sanitizer-style diagnostic: JAX clamps out-of-range gathers silently; checkify makes them observable
         if case["i"] % 4 == 0:
             from jax.experimental import checkify
 
-            err, _ = checkify.checkify(lambda a, b: data.times_series_to_multi_images.__wrapped__(a, b, T, p, f, s, dt, ds), errors=checkify.index_checks)(dyn0, const0)
+            err, _ = checkify.checkify(lambda a, b: data.times_series_to_multi_images.__wrapped__(a, b, T, p, f, s, dt, ds), errors=checkify.index_checks)(jax.tree_util.tree_map(jnp.asarray, dyn0), jax.tree_util.tree_map(jnp.asarray, const0))
             oob[0] += 1
             if err.get() is not None:
                 viols.append(viol("window-out-of-bounds-gather", f"checkify: {str(err.get())[:200]}; {key}"))
-        dynB = geom.MultiImage({t: jnp.stack([jnp.asarray(tr[0][t]) for tr in trajs]) for t in trajs[0][0]}, D, torus)
-        constB = geom.MultiImage({t: jnp.stack([jnp.asarray(tr[1][t]) for tr in trajs]) for t in trajs[0][1]}, D, torus)
+        dynB = geom.MultiImage({t: conv(np.stack([tr[0][t] for tr in trajs])) for t in trajs[0][0]}, D, torus)
+        constB = geom.MultiImage({t: conv(np.stack([tr[1][t] for tr in trajs])) for t in trajs[0][1]}, D, torus)
         xb, yb = data.batch_time_series(dynB, constB, T, p, f, s, dt, ds)
         evals += 1
         # batched == per-trajectory stacked trajectory-major (first trajectory block)
